@@ -97,7 +97,13 @@ func (rg *rootGeneratorSimple) generateIter() func(yield func(*Node, error) bool
 			stack.dfs(currentNode)
 		}
 
-		yield(root, rg.scanner.Err()) // 最後のブロックのrootを返却
+		if err := rg.scanner.Err(); err != nil {
+			yield(nil, err)
+			return
+		}
+		if root != nil {
+			yield(root, nil) // 最後のブロックのrootを返却
+		}
 	}
 }
 
@@ -169,7 +175,7 @@ func (rg *rootGeneratorPipeline) worker(ctx context.Context, wg *sync.WaitGroup,
 					continue
 				}
 
-				if nodes == nil {
+				if root == nil {
 					errc <- errNilStack
 					return
 				}
@@ -179,6 +185,9 @@ func (rg *rootGeneratorPipeline) worker(ctx context.Context, wg *sync.WaitGroup,
 			if err := sc.Err(); err != nil {
 				errc <- err
 				return
+			}
+			if root == nil {
+				continue // blank lines only
 			}
 			verifPoint("gen.send")
 			select {
